@@ -98,11 +98,19 @@ def vtyOf (t : OTy) : Option VTy :=
           else if t.kind == .iface then some .any
           else none
 
+/-- the label under which a struct value of (static) type `t` holds its callable member `name`: the type's
+name and the member's (`main.ZM.Add`).  Function values are opaque labels (`Val.fn id`); fixing the label
+makes the entry determine the member it is — two members never share a function value by accident. -/
+def methKey (t : OTy) (name : String) : String :=
+  (match t.deref with
+    | some (.named n _ _) => n
+    | _ => "") ++ "." ++ name
+
 /-- a value conforms to a type, to depth `n`: scalars and slices as before; for a struct (or pointer to
 struct) type, every member the checker resolves on it (`fieldTypeT`, name resolution of the current code)
 can be fetched from the value — with or without `?.` — and conforms to the member's type to depth `n - 1`,
-and every method (or function-typed member) the checker resolves on it is an entry of the value that can be
-called.
+and every method (or function-typed member) the checker resolves on it is an entry of the value, labelled
+`methKey t name`.
 In particular a pointer member that is typed as a struct is not nil.  Types outside the fragment
 (interfaces, maps, functions) carry no claim. -/
 def Conf : Nat → Val → OTy → Prop
@@ -116,7 +124,7 @@ def Conf : Nat → Val → OTy → Prop
       ∃ nm p fs, v = .struct nm p fs ∧
         (∀ name τ, fieldTypeT .asIs t name = some τ →
           ∃ w, (∀ ns, fetchV v (.str name) ns = .ok w) ∧ Conf n w (some τ)) ∧
-        (∀ name fn im, methodTarget .asIs t name = some (fn, im) → ∃ id, lookupKv name fs = some (.fn id))
+        (∀ name fn im, methodTarget .asIs t name = some (fn, im) → lookupKv name fs = some (.fn (methKey t name)))
     | some (.slo et) => ∃ tag xs, v = .arr tag xs ∧ ∀ x ∈ xs, Conf n x et
     | some .mapAny => ∃ kvs, v = .map kvs
     | some .any => True
@@ -403,8 +411,9 @@ theorem fetchV_arr_gen {tag : ElemT} {xs : List Val} {b : Val} {ki : Kind} (Q : 
 
 /-! ### identifiers and `#` -/
 
-/-- the environment value holds, under every name the checker types as a scalar or a slice of scalars,
-a value of that type -/
+/-- the environment value holds, under every name whose type `vtyOf` classifies (scalar, slice of scalars or
+of structs, `[]interface{}`, struct or pointer to struct, `map[string]interface{}`, interface), a value of
+that type (`ValOfV`; for structs: `Conf` to every depth) -/
 def EnvConforms2 (cfg : CheckCfg) (env : Val) : Prop :=
   ∀ name ns τ V, identRule cfg name ns = .ok τ → vtyOf τ = some V →
     ∃ v, fetchV env (.str name) ns = .ok v ∧ ValOfV v V
